@@ -315,3 +315,46 @@ register(RelGroup('isidist_pyx.B', ISI, [Relation('avg', tr_to_isidist, rel_avg_
 register(RelGroup('spikedist_pyx.B', SPK, [Relation('avg', tr_to_spikedist, rel_avg_pwl)], SPK_Q, SPK_T, _BS,
                   contract2=_Fn(DISTPYX, 'spike_distance_cython', {'get_min_dist_cython': model_get_min_dist(True), 'dist_at_t': model_dist_at_t}),
                   allow_open=()))
+
+
+# ---- C08 for MRTS='auto': the pooled ISI lengths of a train are invariant under mirror / shift and scale with the time axis
+from ..contracts.misc import IsiLengths  # noqa
+
+
+def tr_mirror1(ctx, a):
+    T = arith('+', a['t_start'], a['t_end'])
+    b = dict(a)
+    b['spike_times'] = [arith('-', T, x) for x in reversed(a['spike_times'])]
+    return b, []
+
+
+def tr_affine1(lam):
+    def f(ctx, a):
+        c = z3.Real('shift')
+        g = lambda x: arith('+', arith('*', lam, x), c)
+        return dict(spike_times=[g(x) for x in a['spike_times']], t_start=g(a['t_start']), t_end=g(a['t_end'])), []
+    return f
+
+
+def rel_pool(lam):
+    def f(ctx, o1, o2, a1, a2):
+        ss = lambda l: sum_sq(l)
+        return [('count', len(o1) == len(o2)), ('sum_of_squares', cmp('==', t(arith('*', lam * lam, ss(o1))), t(ss(o2))))]
+    return f
+
+
+def sum_sq(l):
+    tot = 0
+    for v in l:
+        tot = arith('+', tot, arith('*', v, v))
+    return tot
+
+
+class _IsiLenRel(IsiLengths):
+    def setup(self, mode, size, values=None):
+        st, pre, ctx = IsiLengths.setup(self, mode, size, values)
+        return st, pre, ctx
+
+
+register(RelGroup('mirror_isilen.B', _IsiLenRel(), [Relation('mirror', tr_mirror1, rel_pool(1)), Relation('shift_scale_x2', tr_affine1(2), rel_pool(2))],
+                  [(n,) for n in range(0, 4)], [(n,) for n in range(0, 5)], '<= 3 (quick) / 4 (thorough) spikes'))
